@@ -13,22 +13,27 @@ Open Scope N_scope.
 (* dec_total_no_stuck *)
 Theorem c14_theta_never_stuck :
   forall sh bs, bytes_lt bs -> c_deserialize sh bs <> Stuck.
-Proof. exact deserialize_never_stuck. Qed.
+Proof. exact ep_never_stuck. Qed.
+
+(* a seed whose 16-bit seed hash is zero (e.g. 50541) is answered with Err, whatever the bytes
+   (the unrepaired crate panicked in compute_seed_hash: known_findings.d/theta-zero-seed-hash-panic.json) *)
+Theorem c14_theta_zero_seed_hash_is_err : forall bs, c_deserialize 0 bs = Err.
+Proof. exact deser_zero_seed. Qed.
 
 (* dec_ok_wf + dec_alloc_linear: entries in (0, theta), theta in [1, 2^63-1], ascending when it says
    ordered; at most 8 * |input| entries (64 bytes of u64 per input byte at one bit per entry) *)
 Theorem c14_theta_ok_is_usable :
   forall sh bs c, bytes_lt bs -> c_deserialize sh bs = Ok c ->
   c_safe c /\ (length (ce_entries c) <= 8 * length bs)%nat.
-Proof. exact deserialize_ok_safe. Qed.
+Proof. exact ep_ok_safe. Qed.
 
 (* dec_ok_wf in full: the value is well-formed for both writers (entries in (0, theta), theta in
    [1, 2^63-1], ascending when ordered, EMPTY only without entries and with theta = 2^63-1, seed hash the
    reader's unless empty, fewer than 2^32 entries), hence survives serialize / serialize_compressed
    followed by deserialize unchanged (Props/C11_theta.v) *)
 Theorem c14_theta_ok_is_wf :
-  forall sh bs c, sh < 65536 -> bytes_lt bs -> c_deserialize sh bs = Ok c -> c_wf sh c.
-Proof. exact deserialize_ok_wf. Qed.
+  forall sh bs c, sh < 65536 -> bytes_lt bs -> c_deserialize sh bs = Ok c -> sh <> 0 /\ c_wf sh c.
+Proof. exact ep_ok_wf. Qed.
 
 (* allocation, independently of the outcome: the reader allocates in two places only, each behind a
    length test -- Vec::with_capacity(num_entries) in read_entries, vec![0u64; num_entries] in
@@ -44,7 +49,13 @@ Theorem c14_theta_v4_guard :
   forall cnt eb len, 1 <= eb -> (len <? cnt / 8 * eb + (cnt mod 8 * eb + 7) / 8) = false -> cnt <= 8 * len.
 Proof. exact v4_guard. Qed.
 
-(* wf_ops_safe: a usable value re-serializes both ways without reaching a panic site (D12) *)
+(* wf_ops_safe: a usable value re-serializes both ways without reaching a panic site (D12).
+   Queries: estimate/theta/is_empty/iter have no panic site; lower_bound()/upper_bound() contain
+   `.expect("compact theta should always be valid")` on binomial_bounds, whose only Err exit is theta outside
+   (0, 1]: excluded by 0 < theta <= 2^63-1 of c_safe; the ln/sqrt code of binomial_bounds itself is NOT
+   modelled (trusted; the harness calls the bounds on every accepted value in both profiles).
+   c_safe / c_wf do not include distinctness of the entries (unordered images with repeated hashes are
+   accepted, as by the C++ reader). *)
 Theorem c14_theta_usable_reserializes :
   forall c, c_safe c -> exists bs, c_serialize_compressed c = Ok bs.
 Proof. exact safe_serializable. Qed.
